@@ -11,8 +11,15 @@ import subprocess
 
 from lib import vlib
 from lib.vlib import cbytes, clist, copt, cn
+from props import c25_regen
 
 ID = "C25"
+
+
+def regen(ctx):
+    """coq/C25/Gen.v <- search_sorted / MAKE_SEARCH_FUNC of src/c/parse_c_type.c + sort keys of recompiler.py"""
+    c25_regen.regen_file(vlib, ctx, "C25")
+
 ALPH = b"abAB_01"
 
 
@@ -98,11 +105,26 @@ def generate(ctx):
         if len(table) >= 2:
             cases.append(dict(kind="module", mode="include", shape=["siblings", "chain"][i % 2],
                               names=[t.decode() for t in table]))
+    # the same identifier in several name spaces (struct n / enum n / typedef n: three tables); in the cases with a
+    # "clash", one identifier is declared as struct AND union: two records with the same key in _struct_unions
+    for i in range(ctx.n(4, 12)):
+        table = [t.decode() for t in gen_table(rng, False) if t][:8] or ["x"]
+        cases.append(dict(kind="module", mode="samename", names=table,
+                          clash=rng.choice(table) if i % 2 == 0 else None))
     if ctx.thorough:
         for i in range(3):
             table = [t for t in gen_table(rng, False) if t]
             cases.append(dict(kind="module", mode="api", names=[t.decode() for t in table]))
     return cases
+
+
+def finding_key(case, failure):
+    """known-finding class of a failure, or None. struct-union-same-tag: the case declares `struct x` and `union x`
+    in one cdef and the failure is about resolving exactly one of these two tags"""
+    if case.get("mode") == "samename" and case.get("clash") and failure.startswith("tagclash: ") \
+            and ("'struct %s'" % case["clash"] in failure or "'union %s'" % case["clash"] in failure):
+        return "struct-union-same-tag"
+    return None
 
 
 def build_harness(ctx):
@@ -179,7 +201,11 @@ def evaluate(ctx, cases):
             if r["lookups"] > 3:
                 ctx.nontrivial(("module", c["mode"], c["names"]))
             for f in r["failures"]:
-                ctx.violation(c, "generated %s module: %s" % (c["mode"], f))
+                ctx.violation(c, "generated %s module: %s" % (c["mode"], f), key=finding_key(c, f))
+            if c["mode"] == "samename" and c.get("clash") and \
+                    sum(1 for f in r["failures"] if finding_key(c, f)) > 1:
+                # the known defect loses ONE of the two tags; losing both is something else
+                ctx.violation(c, "generated samename module: both struct and union %s are lost" % c["clash"])
         ctx.sample(mods[0])
 
 
@@ -189,21 +215,36 @@ def run(ctx):
                        "functions of the unmodified parse_c_type.c and compared with the Coq model (also on unsorted "
                        "tables) and with list.index (sorted tables); module: generated ABI/API modules over such name "
                        "sets, every declared name resolved through ffi.typeof/integer_const/lib and near-miss names "
-                       "refused. Non-trivial = key is a proper prefix/extension of another entry or a near miss of one, "
+                       "refused; samename: one identifier declared as struct, enum and typedef (and, in half of the cases, "
+                       "also as union: duplicate key in _struct_unions), each resolved and compared with the in-line FFI. "
+                       "Non-trivial = key is a proper prefix/extension of another entry or a near miss of one, "
                        "or a module with > 3 lookups; distinct by (table, key).")
     ctx.assumptions += [
-        "hand-written model C25/Model.v of search_sorted; tied to parse_c_type.c by this run's differential test",
+        "C25/Gen.v regenerated from search_sorted/MAKE_SEARCH_FUNC by the token matcher tools/props/c25_regen.py and "
+        "proved equal to the hand model C25/Model.v; also tied to parse_c_type.c by this run's differential test",
         "strncmp compares bytes as unsigned char (glibc)",
         "Python's list.sort on ASCII identifiers orders by byte value (checked on the generated modules by lookup)"]
     evaluate(ctx, generate(ctx))
 
 MANIFEST = dict(
-    technique="Coq proof (binary-search loop invariant, unbounded tables/keys) + differential correspondence with the unmodified parse_c_type.c and generated modules",
-    text="Proof: for every strictly byte-sorted table of NUL-free names and every key, the model of search_sorted returns "
-         "the key's own index or reports absence exactly when absent; the Python-side sort of any duplicate-free name set "
-         "yields such a table (C25_declared_iff_found). The hand model is tied to the code by running the unmodified "
-         "parse_c_type.c and the model on the same tables (sorted and unsorted) on every run, and by looking up every "
-         "name of generated ABI/API modules.",
-    note="Trusted: Coq kernel; hand model C25/Model.v (tied by differential testing, not by translation); glibc strncmp; "
-         "gcc; CPython's sort order on ASCII identifiers. Theorems closed under the global context (no axioms).",
+    technique="Coq proof (binary-search loop invariant, unbounded tables/keys) about search_sorted as REGENERATED from "
+              "parse_c_type.c on every run + differential correspondence with the unmodified parse_c_type.c and "
+              "generated modules",
+    text="Proof: for every strictly byte-sorted table of NUL-free names and every key, search_sorted returns the key's "
+         "own index or reports absence exactly when absent (C25_search_sorted_correct, C25_own_entry); an insertion sort "
+         "by byte order of any duplicate-free name set yields such a table (C25_python_sort_gives_table, "
+         "C25_declared_iff_found). Tie: coq/C25/Gen.v is translated from search_sorted and MAKE_SEARCH_FUNC on every run "
+         "(initial bounds, loop condition, middle, every condition and action of the if-chain, the early return on an "
+         "empty table, the four instantiations, the `name` key field, the three sort keys of recompiler.py); "
+         "C25_gen_is_model / C25_gen_search_is_model prove the regenerated function equal to the model for all inputs, "
+         "C25_search_in_correct / C25_search_in_declared_iff_found restate the headline for it, "
+         "C25_tables_searched_on_name pins the tables. The compiled parse_c_type.c and the model are also run on the same "
+         "tables (sorted and unsorted), and every name of generated ABI/API modules is looked up, including the same "
+         "identifier in several name spaces (struct/enum/typedef; struct+union = known finding struct-union-same-tag).",
+    note="Regenerated (fail closed): search_sorted, MAKE_SEARCH_FUNC, instantiation list, name fields of parse_c_type.h, "
+         "sort keys. Correspondence only: that list.sort/sorted on str orders like bytes for ASCII identifiers "
+         "(py_sorted is a Coq insertion sort, not a translation of Python), include delegation, lib.<name> attribute "
+         "lookup, get_common_type (fifth client of search_sorted). Index arithmetic is on nat: `left + right` as C int is "
+         "exact below 2^30 entries (not stated as a hypothesis). Trusted: Coq kernel; the token matcher of "
+         "c25_regen.py; glibc strncmp; gcc. Theorems closed under the global context (no axioms).",
     design_ref="DESIGN.md §4 C25")
